@@ -422,6 +422,7 @@ pub fn c03(tier: &str, seed: u64) -> Check {
     }
     spaces.push(crate::props::fam::c03_family(thorough));
     spaces.push(crate::props::large::c03_big(thorough));
+    spaces.push(crate::props::huge::space("C03"));
     let report = super::report(
         "C03",
         tier,
@@ -825,6 +826,7 @@ pub fn c05(tier: &str, seed: u64) -> Check {
     }
     spaces.push(crate::props::fam::c05_family(thorough));
     spaces.push(crate::props::large::c05_big(thorough));
+    spaces.push(crate::props::huge::space("C05"));
     let report = super::report(
         "C05",
         tier,
